@@ -223,22 +223,34 @@ class QRef:
             raise Unsupported("too many reference branches")
         return out
 
-    def _step_branch(self, b: Branch, op: cirq.Operation) -> List[Branch]:
+    def _step_branch(self, b: Branch, op: cirq.Operation, qmap=None, key_of=None) -> List[Branch]:
+        """`qmap` / `key_of` are set while unrolling a CircuitOperation: the sub-circuit's qubits and
+        measurement keys are translated here, from the documented meaning of qubit_map,
+        measurement_key_map, repetition ids and parent path -- never through the operation's own
+        with_qubits / with_key machinery, which is code under test."""
         sp = self.space
         # classical control: all conditions must hold
         if isinstance(op, cirq.ClassicallyControlledOperation):
+            if key_of is not None:
+                raise Unsupported("classical control inside a sub-circuit")
             conds = op.classical_controls
             ok = all(eval_condition(c, b.records, self.record_dims) for c in conds)
             if not ok:
                 return [b]
             return self._step_branch(b, op.without_classical_controls())
         untagged = op.untagged
+        if isinstance(untagged, cirq.CircuitOperation):
+            if key_of is not None:
+                raise Unsupported("nested sub-circuits")
+            return self._circuit_operation(b, untagged)
         gate = untagged.gate
-        targets = [sp.index[q] for q in op.qubits]
+        targets = [sp.index[(qmap or {}).get(q, q)] for q in op.qubits]
         if isinstance(gate, cirq.MeasurementGate):
-            return self._measurement_gate(b, gate, targets)
+            return self._measurement_gate(b, gate, targets, key_override=(key_of(gate.key) if key_of else None))
         if isinstance(gate, cirq.PauliMeasurementGate):
-            return self._pauli_measurement(b, gate, targets)
+            return self._pauli_measurement(b, gate, targets, key_override=(key_of(gate.key) if key_of else None))
+        if key_of is not None and cirq.is_measurement(untagged):
+            raise Unsupported("keyed channel inside a sub-circuit")
         if cirq.has_unitary(untagged):
             u = cirq.unitary(untagged)
             return [self._apply_unitary(b, sp.embed(u, targets))]
@@ -278,9 +290,40 @@ class QRef:
             return [self._apply_kraus(b, ks)]
         raise Unsupported(f"operation {op!r}")
 
-    def _measurement_gate(self, b: Branch, gate: cirq.MeasurementGate, targets: List[int]) -> List[Branch]:
+    def _circuit_operation(self, b: Branch, co: "cirq.CircuitOperation") -> List[Branch]:
+        """A sub-circuit means: its operations, `repetitions` times in a row, on the qubits given by
+        qubit_map, recording under measurement_key_map[key] (default: the key itself), prefixed -- when
+        repetition ids are in use -- by the id of the repetition, and by the parent path."""
+        if co.repeat_until is not None or not isinstance(co.repetitions, (int, np.integer)):
+            raise Unsupported("repeat_until / symbolic repetitions")
+        reps = int(co.repetitions)
+        if reps < 0:
+            raise Unsupported("negative repetitions")
+        if co.param_resolver:
+            raise Unsupported("parameterised sub-circuit")
+        qmap = dict(co.qubit_map)
+        kmap = dict(co.measurement_key_map)
+        ids = list(co.repetition_ids) if (co.use_repetition_ids and co.repetition_ids is not None) else None
+        parent = tuple(co.parent_path)
+        branches = [b]
+        for i in range(reps):
+            prefix = parent + ((ids[i],) if ids is not None else ())
+
+            def key_of(k, prefix=prefix):
+                return ":".join(prefix + (kmap.get(k, k),))
+
+            for moment in co.circuit:
+                for sop in moment.operations:
+                    nxt: List[Branch] = []
+                    for br in branches:
+                        nxt.extend(self._step_branch(br, sop, qmap=qmap, key_of=key_of))
+                    branches = nxt
+        return branches
+
+    def _measurement_gate(self, b: Branch, gate: cirq.MeasurementGate, targets: List[int],
+                          key_override: Optional[str] = None) -> List[Branch]:
         sp = self.space
-        key = _key_str(gate.key)
+        key = key_override if key_override is not None else _key_str(gate.key)
         dims = tuple(sp.dims[t] for t in targets)
         self.record_dims[key] = dims
         mask = gate.full_invert_mask()
@@ -313,9 +356,10 @@ class QRef:
                 res.append(fb)
         return res
 
-    def _pauli_measurement(self, b: Branch, gate: cirq.PauliMeasurementGate, targets: List[int]) -> List[Branch]:
+    def _pauli_measurement(self, b: Branch, gate: cirq.PauliMeasurementGate, targets: List[int],
+                           key_override: Optional[str] = None) -> List[Branch]:
         sp = self.space
-        key = _key_str(gate.key)
+        key = key_override if key_override is not None else _key_str(gate.key)
         obs = gate.observable()
         self.record_dims[key] = (2,)
         # observable as a full matrix: coefficient (+1/-1) times tensor product of Paulis
